@@ -157,8 +157,31 @@ def big_missing(seed=1):
     return out
 
 
-PROBES = {'C01': [big_rows], 'C02': [big_rows], 'C04': [big_rows, big_candset], 'C07': [big_rows, big_candset],
-          'C10': [big_rows, big_candset], 'C13': [big_rows], 'C14': [big_rows], 'C05': [big_candset],
+def odd_splits(seed=1):
+    """(rows, n_jobs) pairs whose split boundaries are not exact in binary64 (61 / 7, 15 / 11, 15 / 13,
+    123 / 15, 122 / 14): the join must not depend on n_jobs."""
+    from py_stringsimjoin.join.jaccard_join_py import jaccard_join_py
+    from py_stringsimjoin.join.overlap_join_py import overlap_join_py
+    rng = random.Random(seed)
+    out = []
+    tok = _tok()
+    for rows, nj in ((61, 7), (15, 11), (15, 13), (123, 15), (122, 14), (7, 3), (25, 6)):
+        L, R = _tables(rng, 12, rows, vocab=20, index='none')
+        for name, f, t in (('jaccard_join', jaccard_join_py, 0.5), ('overlap_join', overlap_join_py, 2)):
+            a = f(L, R, 'id', 'id', 's', 's', tok, t, n_jobs=1, show_progress=False)
+            b = f(L, R, 'id', 'id', 's', 's', tok, t, n_jobs=nj, show_progress=False)
+            pa, pb = sorted(zip(a['l_id'], a['r_id'])), sorted(zip(b['l_id'], b['r_id']))
+            if pa != pb:
+                out.append({'what': '%s on %d right rows: n_jobs=%d returns %d pairs, n_jobs=1 returns %d (e.g. %r)' % (
+                    name, rows, nj, len(pb), len(pa), sorted(set(pa) ^ set(pb))[:3]),
+                    'class': {'kind': 'scale: n_jobs independence', 'entry': name},
+                    'call': {'generator': 'search_scale.odd_splits', 'seed': seed, 'right_rows': rows, 'n_jobs': nj}})
+                return out
+    return out
+
+
+PROBES = {'C01': [big_rows, odd_splits], 'C02': [big_rows], 'C04': [big_rows, big_candset], 'C07': [odd_splits, big_rows, big_candset],
+          'C10': [odd_splits, big_rows, big_candset], 'C13': [odd_splits, big_rows], 'C14': [big_rows], 'C05': [big_candset],
           'C06': [big_candset], 'C08': [big_missing], 'C11': [big_missing], 'C09': [big_rows]}
 
 
@@ -180,7 +203,7 @@ def search(pid, seed=1):
 
 if __name__ == '__main__':
     import json
-    for f in (big_rows, big_candset, big_missing):
+    for f in (big_rows, big_candset, big_missing, odd_splits):
         import time
         t0 = time.time()
         print(f.__name__, json.dumps(f(1), default=str)[:600], round(time.time() - t0, 1))
